@@ -308,6 +308,7 @@ class World:
                     del l.subs[path]
                     reasons.append("0")
                     l.unsubbed = getattr(l, "unsubbed", []) + [(path, len(self.accepted))]
+                    l.unsubbed_ops = getattr(l, "unsubbed_ops", []) + [(path, len(self.accepted), self.cur_op)]
                 else:
                     reasons.append("17")
             # exactly one UNSUBACK per UNSUBSCRIBE, one reason per filter
@@ -316,8 +317,8 @@ class World:
         if kind == "PUBACK" or kind == "PUBREC":
             if not l.unacked or l.unacked[0][0] != int(p[1]):
                 self.undecidable_ack(i, l)
-                if l.unacked:
-                    l.unacked.popleft()      # register_ack pops the head before comparing
+                # the window is left as it is: the head was not acknowledged and must be sent
+                # again when a persistent session resumes
                 return "unsolicited-ack"
             head = l.unacked.popleft()
             if len(head) > 2:
@@ -332,9 +333,7 @@ class World:
         if kind == "PUBCOMP":
             rp = getattr(l, "rel_pending", deque())
             if not rp or rp[0] != int(p[1]):
-                if rp:
-                    rp.popleft()             # register_pubcomp pops the head before comparing
-                return "unsolicited-pubcomp"
+                return "unsolicited-pubcomp"     # the pending release stays pending
             rp.popleft()
             return None
         if kind == "PING":
@@ -362,6 +361,10 @@ class World:
                     if not utf8_ok(topic):
                         return "pub-bad-utf8"
                     l.alias_in[alias] = topic
+            elif topic == b"":
+                return "pub-empty-topic"        # [MQTT-4.7.3-1]: closes the connection (ProtocolError)
+        elif topic == b"":
+            return "pub-empty-topic"
         if not utf8_ok(topic):
             return "pub-bad-utf8"
         self.accept(pi, l, topic, payload, retain, qos)
@@ -397,6 +400,8 @@ class World:
             return
         l = self.links[k]
         l.drained_epoch = self.epoch
+        if l.ended is not None:
+            l.drained_after_end = True
         for n in parse_notifications(ans):
             if n[0] == "ACK":
                 if n[1] == "CONNACK":
@@ -429,6 +434,14 @@ class World:
                     l.unresolved_fwd = getattr(l, "unresolved_fwd", 0) + 1
                 else:
                     l.fwd.append(f)
+                if f["qos"] > 0 and l.ended is not None and not l.clean and f["topic_resolved"]:
+                    # a QoS>0 forward drained only after the persistent connection had ended was in
+                    # its window, unacknowledged, at the disconnection: the rewind of K-C17-rewind
+                    # took place although the ghost could not see it then
+                    for p_ in list(l.subs):
+                        g_, f_ = strip_share(p_)
+                        if g_ is not None and topic_matches(f["topic_resolved"], f_):
+                            self.rewound_groups.setdefault(g_, l.ended)
                 if f["qos"] > 0:
                     # ---- C09: window
                     if f["pkid"] == 0 or f["pkid"] > MAX_INFLIGHT:
@@ -921,36 +934,41 @@ def check_delivery(w, q):
             for l in mlinks:
                 if l.notes or l.resumed or not l.clean:
                     ambiguous = True
+                if l.ended is not None and not getattr(l, "drained_after_end", False):
+                    ambiguous = True      # forwards may sit, never looked at, in the ended link's buffer
                 other = [p_ for (p_, _q, _s, _a) in getattr(l, "new_subs", []) if p_ != path_g]
                 if any(topic_matches(b"x", b"x") and True for _ in ()) :
                     pass
                 if any(strip_share(p_)[1] is not None and (strip_share(p_)[1] == flt or True) and p_ != path_g and
                        any(topic_matches(a[1], strip_share(p_)[1]) and topic_matches(a[1], flt) for a in w.accepted) for p_ in other):
                     ambiguous = True      # the member also receives the group's topics through another subscription
-                for (p_, _q, since, _a) in getattr(l, "new_subs", []):
+                for (p_, _q, since, sop) in getattr(l, "new_subs", []):
                     if p_ != path_g:
                         continue
                     until = None
-                    for (pu, at) in getattr(l, "unsubbed", []):
-                        if pu == path_g and at >= since:
-                            until = at
+                    for (pu, at, uop) in getattr(l, "unsubbed_ops", []):
+                        if pu == path_g and at >= since and uop >= sop:
+                            until = uop
                             break
                     if until is None and l.ended is not None:
-                        until = getattr(l, "ended_n", 0)
-                    iv.append((since, until))
+                        until = l.ended
+                    iv.append((sop, until, since))     # membership in OP time (+ acceptance counter at its start)
             if not ambiguous and iv and g not in w.rewound_groups:
                 end_n = len(w.accepted)
-                # T = earliest start of a chain of intervals covering [T, end]
+                # T = earliest start of a chain of membership intervals that overlap in op time up to
+                # the end: an empty group is dropped and re-created at the log tail, whatever was
+                # accepted but not yet forwarded is legitimately gone ("while the group stayed non-empty")
                 open_iv = [x for x in iv if x[1] is None]
                 if open_iv:
-                    T = min(x[0] for x in open_iv)
+                    Top = min(x[0] for x in open_iv)
                     changed = True
                     while changed:
                         changed = False
-                        for (a_, b_) in iv:
-                            if b_ is not None and a_ < T <= b_:
-                                T = a_
+                        for (a_, b_, _n) in iv:
+                            if b_ is not None and a_ < Top < b_:
+                                Top = a_
                                 changed = True
+                    T = max(n_ for (a_, _b, n_) in iv if a_ == Top)
                     within = w.log_bytes[flt] < w.cfg["segcount"] * w.cfg["segsize"]
                     if within:
                         exp = [(tp, pl) for (n, tp, pl, _r, _p, _q, _i) in w.accepted if n >= T and pl != b"" and topic_matches(tp, flt)]
